@@ -100,7 +100,13 @@ fn canon(j: &JoinInputDefault) -> String {
         parts.push(format!("O:futures_crate_path({})", ts(p)));
     }
     if let Some(p) = &j.custom_joiner {
-        parts.push(format!("O:custom_joiner({})", ts(p)));
+        // since fix d014831 of /repo the parser stores a closure joiner parenthesized (it is pasted in front of an argument list);
+        // that is a representation detail, not a matter of how branches are split
+        let shown = match syn::parse2::<syn::Expr>(p.clone()) {
+            Ok(syn::Expr::Paren(e)) if matches!(*e.expr, syn::Expr::Closure(_)) => ts(&e.expr.to_token_stream()),
+            _ => ts(p),
+        };
+        parts.push(format!("O:custom_joiner({})", shown));
     }
     if let Some(p) = &j.transpose_results {
         parts.push(format!("O:transpose_results({})", p));
@@ -209,8 +215,10 @@ fn admitted2(text: &str, kind: &str) -> Result<bool, String> {
         return Err("does not parse as a whole".into());
     }
     if let TokenTree::Group(g) = &toks[0] {
-        if g.delimiter() == Delimiter::Bracket {
-            return Err("starts with a bracket group (would merge with `=>` into `=>[]`)".into());
+        // only an *empty* bracket group merges with `=>` into the collect operator `=>[]` (an operand that starts with a
+        // non-empty one used to be left out as well; that hid fixed finding 06dc7f8)
+        if g.delimiter() == Delimiter::Bracket && g.stream().is_empty() {
+            return Err("starts with an empty bracket group (merges with `=>` into `=>[]`)".into());
         }
     }
     if let Some(TokenTree::Punct(p)) = toks.last() {
